@@ -8,8 +8,8 @@
    every bitlength, every assignment): Proofs/Adv.v, Proofs/AdvGadgets.v. *)
 From Coq Require Import ZArith List Znumtheory Lia.
 From PySnark.Base Require Import FieldZ.
-From PySnark.Model Require Import Lc Sym Gadgets.
-From PySnark.Proofs Require Import Sound Meta Adv AdvGadgets.
+From PySnark.Model Require Import Lc Sym Gadgets Api Prog.
+From PySnark.Proofs Require Import Sound Meta Adv AdvGadgets AssertDispatch.
 Import ListNotations.
 Open Scope Z_scope.
 
@@ -98,6 +98,44 @@ Theorem C03_model_assert_range : forall vx lo hi x xlo xhi u s' cs, run (assert_
   - 2 ^ Z.of_nat (nbits c) <= vx - lo < 2 ^ Z.of_nat (nbits c) -> - 2 ^ Z.of_nat (nbits c) <= hi - vx - 1 < 2 ^ Z.of_nat (nbits c) -> lo <= vx < hi.
 Proof. exact (assert_range_int Hp w W0 c s G). Qed.
 End C03_model.
+(* The comparison assertions of ALL THREE secret classes through the method dispatch (gen_meth: LinComb.assert_*, LinCombBool.assert_*,
+   LinCombFxp.assert_* with an operand of the same class, or for fixed point an int k / a secret integer y standing for k * 2^r / y * 2^r):
+   any assignment satisfying what the call emits puts the two wires in the asserted relation ([forced]: a difference forced into
+   [0, 2^bitlength), equality, or inequality mod p). *)
+Section C03_dispatch.
+Variable p : Z.
+Hypothesis Hp : prime p.
+Variable w : var -> Z.
+Hypothesis W0 : w 0 = 1.
+Variable c : cfg.
+Variable s : @Gadgets.gst p.
+Hypothesis G : AdvGadgets.Gok w s.
+Hypothesis O : AdvGadgets.Oone w s.
+Notation ew := (AdvGadgets.ew w).
+Notation sat cs := (Forall (holds (p:=p) w) (cons_of cs)).
+Theorem C03_class_assertions_force_the_relation : forall m recv o x y r s' cs,
+  AssertDispatch.is_cmp m = true -> AssertDispatch.wires c recv o = Some (x, y) ->
+  run (Prog.gen_meth c m recv [o]) s = (inl r, s', cs) -> sat cs -> AssertDispatch.forced (p:=p) c m (ew x) (ew y).
+Proof. exact (AssertDispatch.meth_assert_forced Hp w W0 c s G O). Qed.
+(* what [wires] are: the receiver's wire and the operand's wire; a fixed-point receiver scales an int / secret-int operand by 2^r *)
+Theorem C03_class_assertion_wires : forall f g (x y : Sym.slc p) k,
+  AssertDispatch.wires c (Api.PLC x) (Api.PLC y) = Some (x, y) /\ AssertDispatch.wires c (Api.PBool f x) (Api.PBool g y) = Some (x, y) /\
+  AssertDispatch.wires c (Api.PFxp f x) (Api.PFxp g y) = Some (x, y) /\
+  (exists yk, AssertDispatch.wires c (Api.PFxp f x) (Api.PInt k) = Some (x, yk) /\ ew yk = k * R c) /\
+  (exists ys, AssertDispatch.wires c (Api.PFxp f x) (Api.PLC y) = Some (x, ys) /\ ew ys = ew y * R c).
+Proof.
+  intros f g x y k. repeat split.
+  - eexists. split; [reflexivity|]. apply (AssertDispatch.ew_fxp_int w W0).
+  - eexists. split; [reflexivity|]. apply AssertDispatch.ew_fxp_lc.
+Qed.
+End C03_dispatch.
+Print Assumptions C03_class_assertions_force_the_relation.
+(* non-vacuity: LinCombFxp.assert_lt(3) on a secret fixed-point number runs in the model and emits constraints *)
+Example C03_dispatch_example :
+  let s0 : @Gadgets.gst 65537 := upd_counters (init_gst (p:=65537)) 0 1 10 in
+  exists r s' cs, run (Prog.gen_meth {| bitlength := 8%nat; resolution := 2 |} Prog.MAssertLt (Api.PFxp 0 (var_slc (-1))) [Api.PInt 3]) s0 = (inl r, s', cs)
+                  /\ (0 < length (cons_of cs))%nat.
+Proof. cbv zeta. eexists. eexists. eexists. split; [vm_compute; reflexivity|vm_compute; lia]. Qed.
 Print Assumptions C03_model_assert_le.
 Print Assumptions C03_model_assert_gt.
 Print Assumptions C03_model_assert_ge.
